@@ -194,8 +194,101 @@ def run_scenario(base, sc):
         result["tasks_left"] = [t for t in asyncio.all_tasks() if t is not asyncio.current_task() and not t.done()]
         result["reg"] = {k: n for k, n in gw.nodes.items()}
 
+    async def main_cancel():
+        """The task that owns the context is cancelled from outside (task.cancel()) or by an
+        enclosing asyncio.timeout() while it is in the body, `cancel_after` loop iterations
+        (after `cancel_at` virtual seconds) after it entered."""
+        nonlocal main_task
+        gw = Gateway(tr, Config(persistence_file=path))
+        result["gw"] = gw
+        entered = asyncio.Event()
+
+        async def owner():
+            async with (asyncio.timeout(sc["cancel_at"]) if sc["exit"] == "timeout" else _NoTimeout()), gw:
+                result["inside"] = sorted(gw.nodes)
+                for i in range(sc["mutate_before"]):
+                    gw.nodes[100 + i] = Node(100 + i, 17, "2.0")
+                    log.append(("M", "mutate", None))
+                entered.set()
+                try:
+                    await asyncio.sleep(10 ** 7)
+                except asyncio.CancelledError:
+                    gw.nodes[200] = Node(200, 17, "2.0", sketch_name="late")
+                    log.append(("M", "mutate", None))
+                    log.append(("M", "owner-cancelled", None))
+                    raise
+
+        t = asyncio.get_running_loop().create_task(owner())
+        main_task = t
+        await entered.wait()
+        if sc["exit"] == "cancel":
+            if sc["cancel_at"]:
+                await asyncio.sleep(sc["cancel_at"])
+            for _ in range(sc["cancel_after"]):
+                await asyncio.sleep(0)
+            t.cancel()
+        try:
+            await t
+        except BaseException as e:  # noqa: BLE001
+            result["exc"] = e
+        await asyncio.sleep(0)
+        result["tasks_left"] = [x for x in asyncio.all_tasks() if x is not asyncio.current_task() and not x.done()]
+        result["reg"] = {k: n for k, n in gw.nodes.items()}
+
+    async def main_two():
+        """Two sessions on the same Gateway object (a reconnect loop, or a retry after connect failed)."""
+        nonlocal main_task
+        main_task = asyncio.current_task()
+        gw = Gateway(tr, Config(persistence_file=path))
+        result["gw"] = gw
+        try:
+            async with gw:
+                for i in range(sc["mutate_before"]):
+                    gw.nodes[100 + i] = Node(100 + i, 17, "2.0")
+                    log.append(("M", "mutate", None))
+                for _ in range(sc["k"]):
+                    await asyncio.sleep(0)
+                if sc["body_raises"]:
+                    log.append(("M", "body-end", False))
+                    raise BodyError("application error")
+                log.append(("M", "body-end", True))
+        except BaseException as e:  # noqa: BLE001
+            result["exc1"] = e
+        tr.connect_error = None
+        if sc["edit_file"]:
+            # another program (or an operator) added node 77 to the file between the sessions
+            try:
+                with open(path) as f:
+                    data = json.load(f)
+            except (OSError, ValueError):
+                data = {}
+            data["77"] = {"node_id": 77, "node_type": 17, "protocol_version": "2.0", "children": {}, "sketch_name": "edited",
+                          "sketch_version": "", "battery_level": 0, "heartbeat": 0, "sleeping": False}
+            with open(path, "w") as f:
+                json.dump(data, f)
+        log.append(("M", "reenter", None))
+        result["t2"] = loop.time()
+        result["saves_before"] = len(saves)
+        try:
+            async with gw:
+                result["inside"] = sorted(gw.nodes)
+                gw.nodes[230] = Node(230, 17, "2.0")
+                log.append(("M", "mutate", None))
+                for _ in range(sc["k2"]):
+                    await asyncio.sleep(0)
+                if sc["wait"]:
+                    await asyncio.sleep(sc["wait"])
+                gw.nodes[231] = Node(231, 17, "2.0", sketch_name="late")
+                log.append(("M", "mutate", None))
+                log.append(("M", "body-end", True))
+        except BaseException as e:  # noqa: BLE001
+            result["exc"] = e
+        await asyncio.sleep(0)
+        result["tasks_left"] = [t for t in asyncio.all_tasks() if t is not asyncio.current_task() and not t.done()]
+        result["reg"] = {k: n for k, n in gw.nodes.items()}
+
     try:
-        loop.run_until_complete(main())
+        loop.run_until_complete(main_cancel() if sc.get("exit") in ("cancel", "timeout") else main_two() if sc.get("two") else main())
         try:
             with open(path) as f:
                 result["file"] = f.read()
@@ -214,9 +307,80 @@ def run_scenario(base, sc):
     return result
 
 
+def file_vs_registry(sc, r):
+    """(what load reads from the file now, the final registry) in canonical form."""
+    import asyncio as _a
+
+    from aiomysensors.persistence import Persistence
+    from persist_common import show_registry
+
+    want = show_registry(r["reg"])
+    loaded: dict = {}
+    try:
+        lp = _a.new_event_loop()
+        lp.run_until_complete(Persistence(loaded, os.path.join(sc["_base"], f"s{sc['id']}.json")).load())
+        lp.close()
+        got = show_registry(loaded)
+    except Exception as ee:  # noqa: BLE001
+        got = "unloadable: " + type(ee).__name__
+    return got, want
+
+
+def oracle_cancel(sc, r):
+    """Leaving the context because the owning task was cancelled / timed out."""
+    fs = []
+    e = r["exc"]
+    want_exc = asyncio.CancelledError if sc["exit"] == "cancel" else TimeoutError
+    how = "task.cancel()" if sc["exit"] == "cancel" else "an enclosing asyncio.timeout()"
+    if not isinstance(e, want_exc):
+        fs.append(("C16:cancelled-exit", f"the owner was interrupted by {how} but {type(e).__name__ if e else 'nothing'} left the context"))
+    if r["tasks_left"]:
+        fs.append(("C16:cancelled-exit", f"the owner was interrupted by {how}: {len(r['tasks_left'])} background task(s) still running afterwards"))
+    tr_disc = sum(1 for x in r["log"] if x[1] == "disconnect")
+    if tr_disc != 1:
+        fs.append(("C16:cancelled-exit", f"the owner was interrupted by {how}: transport.disconnect was called {tr_disc} times"))
+    if r["reg"] is not None:
+        got, want = file_vs_registry(sc, r)
+        if got != want:
+            fs.append(("C16:cancelled-exit", f"the owner was interrupted by {how} and the final registry was not written: file {got[:120]!r}, registry {want[:120]!r}"))
+    return fs
+
+
+def oracle_two(sc, r):
+    """The second session on the same Gateway object."""
+    fs = []
+    e = r["exc"]
+    if e is not None:
+        fs.append(("C16:reentry", f"the second session raised {type(e).__name__}: {e}"))
+    if r["tasks_left"]:
+        fs.append(("C16:reentry", f"{len(r['tasks_left'])} background task(s) still running after the second session"))
+    want_disc = (0 if sc["connect_fails"] else 1) + 1
+    tr_disc = sum(1 for x in r["log"] if x[1] == "disconnect")
+    if tr_disc != want_disc:
+        fs.append(("C16:reentry", f"transport.disconnect was called {tr_disc} times over the two sessions, expected {want_disc}"))
+    if r["reg"] is not None:
+        got, want = file_vs_registry(sc, r)
+        if got != want:
+            fs.append(("C16:reentry", f"after the second session the file does not hold the final registry: file {got[:120]!r}, registry {want[:120]!r}"))
+    if sc["edit_file"] and (r["inside"] is None or 77 not in r["inside"]):
+        fs.append(("C16:reentry-load", f"entering the context again did not load the file: node 77 (in the file) is not in the registry {r['inside']}"))
+    starts = sorted(x[0] - r["t2"] for x in r["saves"][r["saves_before"]:] if x[2] == "S")
+    if sc["wait"] > 0 and (not starts or starts[0] > 1):
+        fs.append(("C16:reentry-cadence", f"the second session was not saved once entered (background saves of that session at +{starts[:3]} s)"))
+    if sc["wait"] >= SAVE_INTERVAL:
+        gaps = [b - a for a, b in zip(starts, starts[1:])]
+        if any(g > SAVE_INTERVAL + 1 for g in gaps) or (starts and sc["wait"] - starts[-1] > SAVE_INTERVAL + 1):
+            fs.append(("C16:reentry-cadence", f"periodic saves of the second session at +{starts[:6]} s leave a gap above {SAVE_INTERVAL} s within {sc['wait']} s"))
+    return fs
+
+
 def oracle(sc, r):
     from persist_common import show_registry
 
+    if sc.get("exit") in ("cancel", "timeout"):
+        return oracle_cancel(sc, r)
+    if sc.get("two"):
+        return oracle_two(sc, r)
     fs = []
     e = r["exc"]
     if isinstance(e, asyncio.CancelledError):
@@ -296,6 +460,12 @@ def to_choices(sc, r):
                     ch.append("M 1")       # MCancel -> MAwait
             elif kind == "mutate":
                 ch.append("U")
+            elif kind == "owner-cancelled":
+                ch.append("C")
+            elif kind == "reenter":
+                ch += ["R", "M 1", "M 1"]   # load, start of the second session
+                main_phase = "connect"
+                saver_started = False
             elif kind == "body-end":
                 ch.append(f"M {1 if arg else 0}")
             elif kind == "disconnect":
@@ -350,6 +520,28 @@ def run(ctx, model_available=True):
     if ctx.quick:
         head = [s for s in scs if s["wait"] or s["k"] < 9]
         scs = head
+    # the owner is cancelled / times out in the body: right after entering (the saver has not
+    # started, is inside each file operation of its first save, sleeps) and around a 15-minute tick
+    for j in range(0, 9 if ctx.quick else 14):
+        for at in (0, SAVE_INTERVAL, 2 * SAVE_INTERVAL):
+            sid += 1
+            scs.append(dict(id=sid, k=0, wait=0, connect_fails=False, body_raises=False, disconnect_fails=False,
+                            mutate_before=j % 2, mutate_after=0, slow=0, old=old_file if j % 3 else None,
+                            exit="cancel", cancel_after=j, cancel_at=at))
+    for at in (0.5, SAVE_INTERVAL - 0.001, SAVE_INTERVAL, SAVE_INTERVAL + 0.001, 2 * SAVE_INTERVAL):
+        for slow in (0, 2):
+            sid += 1
+            scs.append(dict(id=sid, k=0, wait=0, connect_fails=False, body_raises=False, disconnect_fails=False,
+                            mutate_before=1, mutate_after=0, slow=slow, old=old_file,
+                            exit="timeout", cancel_after=0, cancel_at=at))
+    # the same Gateway object entered a second time
+    for k, cf, br in ((0, False, False), (4, False, False), (2, False, True), (0, True, False), (3, True, False)):
+        for k2, wait2 in ((0, 0), (5, 0), (0, 1), (0, SAVE_INTERVAL + 1), (2, 2 * 3600)):
+            for edit in (False, True):
+                sid += 1
+                scs.append(dict(id=sid, k=k, wait=wait2, connect_fails=cf, body_raises=br, disconnect_fails=False,
+                                mutate_before=1, mutate_after=0, slow=0, old=old_file if (k + k2) % 2 == 0 else None,
+                                two=True, k2=k2, edit_file=edit))
     d = Driver()
     exp = []
     for sc in scs:
@@ -365,13 +557,18 @@ def run(ctx, model_available=True):
             dist["saver_never_ran"] += 1
         if len([x for x in r["saves"] if x[2] == "S"]) > 1:
             dist["with_periodic_saves"] += 1
-        kinds.add((sc["k"] if not sc["wait"] else -1, sc["wait"], sc["connect_fails"], sc["body_raises"], sc["disconnect_fails"], bool(aborts), en))
+        kinds.add((sc["k"] if not sc["wait"] else -1, sc["wait"], sc["connect_fails"], sc["body_raises"], sc["disconnect_fails"], bool(aborts), en,
+                   sc.get("exit"), sc.get("cancel_after"), sc.get("cancel_at"), sc.get("two"), sc.get("k2"), sc.get("edit_file")))
         for sig, desc in oracle(sc, r):
             failures.append({"kind": "oracle", "sig": sig,
-                             "desc": f"scenario exit-after-{sc['k']}-iterations wait={sc['wait']}s connect_fails={sc['connect_fails']} body_raises={sc['body_raises']} disconnect_fails={sc['disconnect_fails']} slow={sc['slow']}: {desc}",
+                             "desc": f"scenario {'owner ' + sc['exit'] + ' ' + str(sc['cancel_after']) + ' iterations after t=' + str(sc['cancel_at']) + ' s: ' if sc.get('exit') else ''}{'second session on the same Gateway (k2=' + str(sc['k2']) + ', file edited between sessions=' + str(sc['edit_file']) + '): ' if sc.get('two') else ''}exit-after-{sc['k']}-iterations wait={sc['wait']}s connect_fails={sc['connect_fails']} body_raises={sc['body_raises']} disconnect_fails={sc['disconnect_fails']} slow={sc['slow']}: {desc}",
                              "case": {k: v for k, v in sc.items() if not k.startswith("_")}})
         # model: the conclusion of C16_exit_clean for the schedule class of this run
         want_exc = "connect" if sc["connect_fails"] else ("disconnect" if sc["disconnect_fails"] else ("body" if sc["body_raises"] else "none"))
+        if sc.get("exit") in ("cancel", "timeout"):
+            dist["owner_cancelled"] = dist.get("owner_cancelled", 0) + 1
+        if sc.get("two"):
+            dist["second_sessions"] = dist.get("second_sessions", 0) + 1
         ch = to_choices(sc, r)
         if not aborts and not sc.get("connect_hangs"):
             # runs in which the saver was cancelled inside a save do not expose the exact
@@ -385,11 +582,16 @@ def run(ctx, model_available=True):
             # "done <saver> file=<v> reg=<v> disc=<n> exc=<kind> saves=<n>"
             parts = dict(p.split("=") for p in mout.split(" ")[2:])
             m_state, m_saver = mout.split(" ")[:2]
-            impl_exc = ("cancelled" if isinstance(r["exc"], asyncio.CancelledError) else
+            impl_exc = ("owner-cancelled" if sc.get("exit") in ("cancel", "timeout") and isinstance(r["exc"], (asyncio.CancelledError, TimeoutError)) else
+                        "cancelled" if isinstance(r["exc"], asyncio.CancelledError) else
                         "connect" if isinstance(r["exc"], ConnectionError) else
                         "disconnect" if isinstance(r["exc"], OSError) else
                         "body" if isinstance(r["exc"], BodyError) else "none" if r["exc"] is None else "other")
             impl_disc = sum(1 for x in r["log"] if x[1] == "disconnect")
+            if sc.get("two"):
+                # the model counts per session
+                i_re = [x[1] for x in r["log"]].index("reenter")
+                impl_disc = sum(1 for x in r["log"][i_re:] if x[1] == "disconnect")
             impl_saves = len([x for x in r["saves"] if not x[3]])
             ok = (m_state == "done" and parts["exc"] == impl_exc and int(parts["disc"]) == impl_disc
                   and parts["file"] == parts["reg"] and int(parts["saves"]) == impl_saves)
@@ -404,7 +606,7 @@ def run(ctx, model_available=True):
     return {
         "evaluations": dist["scenarios"],
         "distinct_nontrivial": len(kinds),
-        "rule": "the real Gateway context with persistence on a virtual-clock event loop with an inline executor: exit after k = 0..12 loop iterations x {clean, body raises, disconnect raises, both, connect raises} x {instant, slow} transport, and bodies lasting 1 s .. 3 h of virtual time; observed: exception leaving the context, tasks alive afterwards, file vs final registry, disconnect count, virtual times of the periodic saves; distinct = (k, wait, fault flags, saver cancelled inside a save?, exception class)",
+        "rule": "the real Gateway context with persistence on a virtual-clock event loop with an inline executor: the owning task cancelled (task.cancel()) or timed out (asyncio.timeout) in the body 0..13 iterations after entering and after 900 / 1800 s; a second session on the same Gateway object (after a clean exit, a raising body, a failed connect; file edited between the sessions or not; 0 s .. 2 h); exit after k = 0..12 loop iterations x {clean, body raises, disconnect raises, both, connect raises} x {instant, slow} transport, and bodies lasting 1 s .. 3 h of virtual time; observed: exception leaving the context, tasks alive afterwards, file vs final registry, disconnect count, virtual times of the periodic saves; distinct = (k, wait, fault flags, saver cancelled inside a save?, exception class)",
         "samples": [str({k: v for k, v in scs[7].items() if k in ('k', 'wait', 'connect_fails', 'body_raises', 'disconnect_fails')})],
         "distribution": dist,
         "failures": list(seen.values()),
